@@ -182,6 +182,7 @@ fn dispatch_search(cmd: &str, args: &[String], tier: &String, seed: u64, out: &S
         }
         "c06-one" => props::c0607::replay_one("C06", &arg(&args, "--fen").unwrap(), arg(&args, "--depth").unwrap().parse().unwrap(), &arg(&args, "--at").unwrap(), arg(&args, "--final-depth").and_then(|x| x.parse().ok())),
         "c07-one" => props::c0607::replay_one("C07", &arg(&args, "--fen").unwrap(), arg(&args, "--depth").unwrap().parse().unwrap(), &arg(&args, "--at").unwrap(), None),
+        "c06-real-zero" => props::c0607::replay_real_zero(&arg(&args, "--fen").unwrap(), arg(&args, "--depth").unwrap().parse().unwrap(), arg(&args, "--first-depth").unwrap().parse().unwrap()),
         "c06-cmd" => props::c0607::replay_command_point(&arg(&args, "--fen").unwrap(), arg(&args, "--final-depth").unwrap().parse().unwrap(), &arg(&args, "--mode").unwrap(), arg(&args, "--at").unwrap().parse().unwrap()),
         "c06-history" => props::c0607::replay_history(&arg(&args, "--fen").unwrap(), arg(&args, "--depth").unwrap().parse().unwrap(), arg(&args, "--at").unwrap().parse().unwrap()),
         "c07-real" => props::c0607::replay_real(&engine_plain(&args), &arg(&args, "--prior").unwrap_or_default(), &arg(&args, "--target").unwrap(), &arg(&args, "--go").unwrap(), arg(&args, "--budget").unwrap().parse().unwrap()),
